@@ -2112,7 +2112,7 @@ def post_c15(prop, cases, outs, profiles):
         for kk, l in enumerate(c.lines):
             for prof in profiles:
                 a = outs[prof][idx]
-                if l == "Q codes" and a.startswith("V") and ";" in a:
+                if l == "Q codes" and a.startswith("V") and ";" in a and getattr(c, "seq", None):
                     ents = [e.split(":") for e in a.split(";", 1)[1].split(",") if e]
                     codes = {int(s): int(ln) for s, _, ln in ents}
                     seq = c.seq
